@@ -369,6 +369,27 @@ def scripted_case(rng, k, n):
     return {"k": k, "cfg": cfg, "ops": ops, "probes": probes, "globs": globs, "scripted": True}
 
 
+def refused_root_case(rng, k, n):
+    """no layout: A is committed at root R; the commit of B (never there before) at the SAME root R - or at a root
+    inside A, or outside the storage root - is refused; B must then be not found (and A still found at R) through
+    the same handle (odd n) as through a fresh one (even n); B is then committed at a free root and found there."""
+    a, b_ = SCRIPT_IDS[n % len(SCRIPT_IDS)]
+    root = SCRIPT_ROOTS[(n // 2) % len(SCRIPT_ROOTS)]
+    bad = [root, root + "/v1/content/in", root + "/inner", "../outside-" + str(n)][(n // 2) % 4]
+    cfg = {"layout": "none", "repo_spec": "1.1", "obj_spec": "1.1", "alg": "sha256", "cdir": "content", "pad": 0,
+           "ext_staging": n % 3 == 0, "fresh_handle": n % 2 == 0}
+    ops = [{"op": "create", "raw": "keep", "id": "keep", "root": "objs/keep", "pretty": False},
+           {"op": "create", "raw": a, "id": a, "root": root, "pretty": False},
+           {"op": "create", "raw": b_, "id": b_, "root": bad, "pretty": False},          # refused: B stays staged
+           {"op": "update", "id": a, "pretty": False},
+           {"op": "commit_staged", "id": b_, "root": bad, "pretty": False},              # refused again
+           {"op": "commit_staged", "id": b_, "root": "free/" + root, "pretty": True},
+           {"op": "update", "id": b_, "pretty": False}]
+    probes = [a + "x", "nope"]
+    globs = [glob_tokens(rng, [a, b_, "keep"]) for _ in range(4)]
+    return {"k": k, "cfg": cfg, "ops": ops, "probes": probes, "globs": globs, "scripted": True}
+
+
 def occupied_case(rng, k, n):
     """flat layouts: ids whose layout path exists without being an object - the storage root's `extensions`
     directory and files, and (0002, ids with `/`) a directory other objects are stored beneath.  get_object
@@ -401,7 +422,9 @@ def gen_cases(ctx):
     m = 12 if ctx.quick() else 72
     cases += [scripted_case(ctx.rng, n + j, j) for j in range(m)]
     m2 = 8 if ctx.quick() else 48
-    return cases + [occupied_case(ctx.rng, n + m + j, j) for j in range(m2)]
+    cases += [occupied_case(ctx.rng, n + m + j, j) for j in range(m2)]
+    m3 = 8 if ctx.quick() else 48
+    return cases + [refused_root_case(ctx.rng, n + m + m2 + j, j) for j in range(m3)]
 
 
 # --------------------------------------------------------------------------- running a case
